@@ -37,7 +37,8 @@ META = {
     "level_text": ("P-spec: the specification's laws (commit SHA leads back to the revision; missing_revisions = rs minus "
                    "revids; re-opening a committed backend changes no answer) are theorems; agreement of Dict, Index and Tdb "
                    "with the specification on lookup_commit/lookup_blob_id is proved under the guard 'no key is re-added with "
-                   "a different SHA'; four refutations of the unguarded statement are machine-checked and replayed. All other "
+                   "a different SHA'; four refutations of the unguarded statement are machine-checked and replayed (all four are "
+                   "still-known design divergences; the sqlite sha1s() crash was repaired by 5287cc0). All other "
                    "agreement (Sqlite, lookup_git_sha, revids, sha1s, missing_revisions, write groups) rests on the "
                    "differential run."),
     "level_note": ("Trusted: Coq kernel, vm_compute, the harness, sqlite3 REPLACE/unique-index semantics and bzrformats "
@@ -246,15 +247,15 @@ def corpus():
     u1x = {"revid": b"r1", "sha": sha(b"e"), "tree": sha(b"b"), "test": None, "objs": []}
     wf = lambda ups: [x for u in ups for x in (["begin"], ["add", u], ["commit"])]
     return [
-        {"kind": "script", "ops": wf([u1]), "check_sqlite_sha1s": True},          # C38-sqlite-sha1s, multi-entry
+        {"kind": "script", "ops": wf([u1])},                                       # multi-entry (+ regression: sqlite sha1s)
         {"kind": "script", "ops": wf([u1, u2]) + [["reopen"]]},                    # sqlite tree unique
         {"kind": "script", "ops": wf([u1]), "cross": True},                        # dict namespace
         {"kind": "script", "ops": wf([u1, u1x])},                                  # re-added revision id
         {"kind": "script", "ops": [["begin"], ["add", u1], ["reopen"]]},           # pending lost
         {"kind": "script", "ops": [["begin"], ["add", u1], ["abort"], ["begin"], ["add", u2], ["commit"]]},
         {"kind": "script", "ops": []},
-        # nothing but C38-sqlite-sha1s deviates here
-        {"kind": "script", "check_sqlite_sha1s": True,
+        # regression for C38-sqlite-sha1s (fixed by 5287cc0): no backend deviates here
+        {"kind": "script",
          "ops": wf([{"revid": b"r9", "sha": sha(b"9"), "tree": sha(b"8"), "test": None,
                      "objs": [[False, sha(b"7"), b"f", b"r9"], [True, sha(b"8"), b"TREE_ROOT", b"r9"]]}]) + [["reopen"]]},
     ]
@@ -269,8 +270,7 @@ def cases(rng, tier):
         messy = i % 3 == 0
         ups = _gen_synthetic(rng, rng.randint(1, 6), messy)
         mode = rng.choice(["each", "batch", "batch", "abort", "pending"]) if i % 4 else "batch"
-        yield {"kind": "script", "ops": _bracket(rng, ups, mode), "cross": i % 11 == 5,
-               "check_sqlite_sha1s": i % 40 == 7}
+        yield {"kind": "script", "ops": _bracket(rng, ups, mode), "cross": i % 11 == 5}
 
 
 # --------------------------------------------------------------------------------------
@@ -580,7 +580,7 @@ def model_term(inp):
 
 NAMES = ("dict", "sqlite", "index", "tdb")
 PRIORITY = ["UNEXPLAINED", "dict-blob-tree-namespace", "sqlite-tree-sha-unique", "readd-overwrite",
-            "git-sha-multi-entry", "sqlite-sha1s"]
+            "git-sha-multi-entry"]
 
 
 def _deviations(inp, obs):
@@ -648,8 +648,7 @@ def _deviations(inp, obs):
         if got[4] != want_revids:
             dev("UNEXPLAINED", f"revids {got[4]!r} != {want_revids!r}")
         if isinstance(got[5], Err):
-            if inp.get("check_sqlite_sha1s"):
-                dev("sqlite-sha1s" if name == "sqlite" else "UNEXPLAINED", f"sha1s() raises {got[5]}")
+            dev("UNEXPLAINED", f"sha1s() raises {got[5]}")      # C38-sqlite-sha1s was repaired by 5287cc0
         elif got[5] != want_sha1s:
             dev("readd-overwrite" if not cons else "UNEXPLAINED", f"sha1s {got[5]!r} != {want_sha1s!r}")
         if got[6] != want_missing:
